@@ -1,5 +1,5 @@
 """C04 — selecting, replicating, joining, generating views equal their reference result."""
-import hashlib, itertools, os, re
+import hashlib, itertools, os, re, struct
 from collections import Counter
 
 ID = "C04"
@@ -9,9 +9,9 @@ HANDLERS = ["h_c04.ml"]
 PROVED = ["C04_tile_shape", "C04_tile_element", "C04_repeat_flat", "C04_repeat_axis", "C04_roll_axis", "C04_roll_flat",
           "C04_pad", "C04_take_axis", "C04_take_flat", "C04_compress_axis", "C04_resize", "C04_concatenate_axis",
           "C04_concatenate_flat", "C04_tril_triu", "C04_tril_triu_1d", "C04_tri_eye", "C04_diagflat",
-          "C04_sliding_window_axis", "C04_expand_axis", "C04_arange_count", "C04_linspace_element"]
+          "C04_sliding_window_axis", "C04_expand_axis", "C04_arange_count", "C04_linspace_element", "C04_join_elements_on_domain", "C04_arange_element_on_domain"]
 PARTIAL = ["C04_diagonal_matrix_partial"]
-REFUTED = ["C04_roll_repeated_axis_refuted"]
+REFUTED = ["C04_roll_repeated_axis_refuted", "C04_int_float32_common_type_refuted", "C04_arange_float_negative_int_step_refuted"]
 CORRESPONDENCE_ONLY = ["roll with a tuple of axes", "repeat with per-element counts", "compress with axis=None", "expand with several axes", "stack", "hstack",
                        "vstack", "dstack", "column_stack", "split", "sliding_window with several axes or axis=None",
                        "diagonal of arrays of dim > 2 or axes other than (0,1)", "where", "arange / linspace element values in floating point",
@@ -27,8 +27,12 @@ CLAIM = dict(
           "element count of arange (empty ranges included) and the elements of linspace as exact rationals (num = 1 included); PARTIAL: "
           "diagonal for matrices with axes (0,1) and ANY offset (negative, beyond the extent). These statements describe the tree WITH the "
           "fix: commits wrap_axis (repeat / take / compress / concatenate), negative take entries, diagonal offset, arange empty range, "
-          "linspace element 0; the former findings are regression Examples. REFUTED with a Coq witness and listed as known finding: roll with an "
-          "axis listed twice (last shift wins, NumPy adds). "
+          "linspace element 0; the former findings are regression Examples. ELEMENT TYPES: an element of an operand of type a joined "
+          "(concatenate / stack family / where) with an operand of type b is copied exactly under C++'s common type whenever that agrees with "
+          "NumPy's result type or the value is float32-representable (C04_join_elements_on_domain, types int8/int32/int64/float/double); "
+          "arange elements are exact except for the refuted class below. REFUTED with Coq witnesses and listed as known findings: roll with an "
+          "axis listed twice (last shift wins, NumPy adds); int32/int64 joined with float32 has element type float (NumPy float64: integers "
+          "above 2^24 are rounded); arange with a floating dtype and a negative integer step (index*step wraps in size_t). "
           "CORRESPONDENCE-ONLY (modelled + specified + compared with the C++ on the grid, no element theorem): " + ", ".join(CORRESPONDENCE_ONLY) +
           ". Tied to the C++ by running view::X and array::X on run-time shaped operands (arguments as std::vector / std::array / run-time "
           "tuple / compile-time constants) and index::shape_X / index::X on vector / array / static_vector containers, two flavours "
@@ -40,7 +44,10 @@ RULE = ("per routine: small-scope box (source dim 1..3, extents 1..3; thorough d
         "with repeated and negative entries, every axis incl. negative and None), sampled with a seeded rng where the box "
         "is larger than the per-routine budget; view level on run-time shaped operands with the argument passed as "
         "std::vector / std::array / run-time tuple / compile-time constants, eager level (array::X), index level "
-        "(index::shape_X / index::X on vector / array / static_vector containers). non-trivial = source of dim >= 2 with an "
+        "(index::shape_X / index::X on vector / array / static_vector containers). Element types: every joining view on all ordered pairs of "
+        "int8/int32/int64/float/double operands (fractional and extreme values, printed with %.17g and compared exactly), take / compress "
+        "with int8/int32/int64/size_t/uint8/bool index and condition containers, conditions with non-0/1 truthy entries at view and index "
+        "level, fill values of another type, generators with every dtype. non-trivial = source of dim >= 2 with an "
         "extent > 1; distinct = distinct case lines")
 THEOREM_STATUS = {"proved": PROVED, "partial": PARTIAL, "refuted": REFUTED}
 ASSUMPTIONS = ["extents are positive; repeats/reps >= 1; arithmetic in Z (extents far below 2^31 in every generated case)"]
@@ -53,9 +60,10 @@ def _sha(name):
 
 
 def drivers(tier):
-    dep = "-DVD_DEP_SHA=\"%s%s\"" % (_sha("c04_common.hpp"), _sha("show.hpp"))
+    dep = "-DVD_DEP_SHA=\"%s%s%s\"" % (_sha("c04_common.hpp"), _sha("show.hpp"), _sha("c04_typed.hpp"))
     return {"c04a": [("c04_a.cpp", "ndebug", (dep,)), ("c04_a.cpp", "asan", ("-DVD_LIGHT", dep))],
-            "c04b": [("c04_b.cpp", "ndebug", (dep,)), ("c04_b.cpp", "asan", ("-DVD_LIGHT", dep))]}
+            "c04b": [("c04_b.cpp", "ndebug", (dep,)), ("c04_b.cpp", "asan", ("-DVD_LIGHT", dep))],
+            "c04c": [("c04_c.cpp", "ndebug", (dep,)), ("c04_c.cpp", "asan", ("-DVD_LIGHT", dep))]}
 
 
 # ---------------------------------------------------------------- helpers
@@ -74,6 +82,27 @@ def size(shape):
     n = 1
     for x in shape: n *= x
     return n
+
+# ---- typed operands:  T:<dtype>:<shape>:<data>  (integer data; for f32 / f64 an entry x is the value x/4)
+DTYPES = ["i8", "i32", "i64", "f32", "f64"]
+TYPED_PAIRS = [("i32", "f32"), ("f32", "i32"), ("i64", "f64"), ("f64", "i64"), ("i8", "i64"), ("i64", "f32"), ("f32", "f64")]   # with_typed_pair
+def f32_exact(v): return struct.unpack("f", struct.pack("f", float(v)))[0] == float(v)
+def typed_values(rng, dt, n, partner=None):
+    """n entries of dtype dt: fractional for the floating types, extreme / large for the integer types; an integer operand
+    joined with a float32 operand stays float32-representable here (the other case is the int_float32 stream)"""
+    if dt == "i8": pool = [-128, 127, -1, 0, 5, 100, -77]
+    elif dt == "i32": pool = [-2147483648, 2147483647, 16777217, -16777219, 65537, -3, 0, 12] if partner != "f32" else [16777216, -16777216, 65537, -3, 0, 12, 8388607]
+    elif dt == "i64": pool = [1099511627777, -1099511627779, 4503599627370497, 2147483648, -5, 0, 3] if partner != "f32" else [16777216, -8388609, 65537, -5, 0, 3]
+    elif dt == "f32": pool = [1, -9, 2, 7, -5, 4194305, -33, 0, 10, 3]           # 0.25, -2.25, ..., 2^20 + 0.25
+    else: pool = [1, -9, 2, 7, -5, 4398046511105, -33, 0, 10, 3]                   # ..., 2^40 + 0.25
+    return [rng.choice(pool) for _ in range(n)]
+def T(rng, dt, shape, partner=None): return "T:%s:%s:%s" % (dt, ",".join(map(str, shape)), ",".join(map(str, typed_values(rng, dt, size(shape), partner))))
+def TD(dt, shape, data): return "T:%s:%s:%s" % (dt, ",".join(map(str, shape)), ",".join(map(str, data)))
+def truthy(rng, n, lo=-3, hi=9):
+    """a condition with non-0/1 truthy entries (and at least one true, one false where possible)"""
+    c = [rng.choice([0, 0, 1, 2, hi, lo, 5]) for _ in range(n)]
+    if all(x == 0 for x in c): c[rng.randrange(n)] = 2
+    return c
 
 CT_LISTS_POS = [(2,), (3,), (1, 2), (2, 1), (2, 2), (2, 1, 2)]
 CT_LISTS_AXES = [(0,), (0, 1), (1, 0), (-1, 0), (0, 2)]
@@ -224,8 +253,8 @@ def gen_cases(rng, tier):
             if a is not None and a < 0 and rng.random() < 0.6: continue
             nn = size(s) if a is None else s[a]
             m = rng.randint(1, nn)
-            c = [rng.randint(0, 1) for _ in range(m)]
-            if sum(c) == 0: c[rng.randrange(m)] = 1
+            c = truthy(rng, m, lo=-1, hi=3) if rng.random() < 0.6 else [rng.randint(0, 1) for _ in range(m)]
+            if all(x == 0 for x in c): c[rng.randrange(m)] = 1
             add("compress", "compress S:%s %s %s %s" % (["vec", "arr", "tup"][n % 3], L(c), A(s), AX(a)))
             if rng.random() < 0.2: add("compress", "compress_e %s %s %s" % (L(c), A(s), AX(a)))
 
@@ -246,9 +275,9 @@ def gen_cases(rng, tier):
     for n, s in enumerate(take(rng, shapes, 40 * B) + big):
         d = len(s)
         for a in range(-d, d):
-            q = rng.randint(0, 2)
-            add("expand", "expand S:vec %s I:%d I:%d" % (A(s), a, q))
-            if rng.random() < 0.15: add("expand", "expand_e %s I:%d I:%d" % (A(s), a, q))
+            sp_ = rng.randint(0, 2)
+            add("expand", "expand S:vec %s I:%d I:%d" % (A(s), a, sp_))
+            if rng.random() < 0.15: add("expand", "expand_e %s I:%d I:%d" % (A(s), a, sp_))
         if d >= 2:
             m = rng.randint(1, d); axes = rng.sample(range(d), m)
             axes = [x - d if rng.random() < 0.3 else x for x in axes]
@@ -380,7 +409,7 @@ def gen_cases(rng, tier):
     for n in range(60 * B):
         t = rng.choice(shapes)
         c, x, y = (stretch(t), stretch(t), stretch(t)) if rng.random() < 0.7 else (t, t, t)
-        cd = [rng.randint(0, 1) for _ in range(size(c))]
+        cd = [rng.choice([0, 0, 1, 2, -3, 7]) for _ in range(size(c))]
         add("where", "%s %s %s %s" % ("where" if n % 4 else "where_e", AD(c, cd), A(x), A1(y, 100)), "c04b")
 
     # ---------------- generators
@@ -417,6 +446,106 @@ def gen_cases(rng, tier):
                     if num == 1 and e == 1: continue
                     if rng.random() < (0.1 if q else 0.5): add("generators", "linspace I:%d I:%d I:%d I:%d" % (start, stop, num, e), "c04b")
     for (a_, b_) in [(2, 5), (0, 0), (-1, 3)]: add("generators", "linspace I:%d I:%d I:1 I:1" % (a_, b_), "c04b")
+    # ================= element types (c04_c.cpp): operands of different element types, other index / condition / fill types
+    small = [(2,), (3,), (1, 2), (2, 2), (2, 3), (2, 1, 2)]
+    for ta in DTYPES:
+        for tb in DTYPES:
+            for _ in range(2 if q else 6):
+                s = rng.choice(small); d = len(s)
+                a = rng.choice([None] + list(range(-d, d)))
+                t = rng.choice(small) if a is None else tuple(rng.randint(1, 3) if k == a % d else e for k, e in enumerate(s))
+                add("dtype_join", "tconcat %s %s %s" % (T(rng, ta, s, tb), T(rng, tb, t, ta), AX(a)), "c04c")
+    for (ta, tb) in TYPED_PAIRS:
+        for _ in range(2 if q else 6):
+            s = rng.choice(small); d = len(s)
+            a = rng.randrange(-d - 1, d + 1)
+            add("dtype_join", "tstack %s %s I:%d" % (T(rng, ta, s, tb), T(rng, tb, s, ta), a), "c04c")
+            add("dtype_join", "tstack_e %s %s I:%d" % (T(rng, ta, s, tb), T(rng, tb, s, ta), a % (d + 1)), "c04c")
+            for opn in ("thstack", "thstack_e", "tvstack", "tdstack", "tcolumn_stack"):
+                add("dtype_join", "%s %s %s" % (opn, T(rng, ta, s, tb), T(rng, tb, s, ta)), "c04c")
+            a = rng.choice([None] + list(range(-d, d)))
+            t = rng.choice(small) if a is None else tuple(rng.randint(1, 3) if k == a % d else e for k, e in enumerate(s))
+            add("dtype_join", "tconcat_e %s %s %s" % (T(rng, ta, s, tb), T(rng, tb, t, ta), AX(a)), "c04a")
+        for tc in ("u8", "i32", "i64", "i8"):
+            s = rng.choice(small)
+            cshape = rng.choice([s, s[-1:], (1,) * len(s)])
+            cond = truthy(rng, size(cshape), lo=(200 if tc == "u8" else -3), hi=(255 if tc == "u8" else 127))
+            yshape = rng.choice([s, s[:-1] + (1,), s])
+            add("dtype_where", "%s %s %s %s" % (rng.choice(["twhere", "twhere", "twhere_e"]), TD(tc, cshape, cond), T(rng, ta, s, tb), T(rng, tb, yshape, ta)), "c04c")
+    # an integer above 2^24 joined with a float32 operand: NumPy's result type is float64
+    for (ta, tb, big) in [("i32", "f32", 16777217), ("f32", "i32", 2147483647), ("i64", "f32", 1099511627777), ("f32", "i64", -16777219)]:
+        ia = TD(ta if ta != "f32" else tb, (2,), [big, 3]); fa = TD("f32", (2,), [1, -9])
+        l, r = (ia, fa) if ta != "f32" else (fa, ia)
+        add("int_float32", "tconcat %s %s I:0" % (l, r), "c04c")
+        if (ta, tb) in TYPED_PAIRS: add("int_float32", "thstack %s %s" % (l, r), "c04c")
+    # index lists of take in other integer containers (repeated, unsorted, negative where the type allows)
+    for k in ("i8", "i32", "i64", "u64"):
+        for ts in DTYPES:
+            s = rng.choice([t for t in small if len(t) >= 1]); d = len(s)
+            a = rng.choice([None] + list(range(-d, d)))
+            nn = size(s) if a is None else s[a]
+            ind = [rng.randrange(nn) for _ in range(rng.randint(2, 4))]; ind[1] = ind[0]
+            if k != "u64": ind = [x - nn if rng.random() < 0.4 else x for x in ind]
+            add("index_containers", "ttake S:%s %s %s %s" % (k, T(rng, ts, s), L(ind), AX(a)), "c04c")
+    # conditions of compress: integer containers with non-0/1 truthy entries, bool container; the shape function and the
+    # index map see the same condition (view level and index level)
+    for k in ("i32", "u8", "i64", "i8", "bool"):
+        for ts in ("f64", "i8", "f32"):
+            for _ in range(2 if q else 5):
+                s = rng.choice([(4, 3), (3,), (2, 4), (3, 2, 2)]); d = len(s)
+                a = rng.choice([None] + list(range(-d, d)))
+                nn = size(s) if a is None else s[a]
+                m = rng.randint(1, min(nn, 4) if k == "bool" else nn)
+                cond = truthy(rng, m, lo=(200 if k == "u8" else -2), hi=(255 if k == "u8" else 7))
+                add("conditions", "tcompress S:%s %s %s %s" % (k, L(cond), T(rng, ts, s), AX(a)), "c04c")
+        for _ in range(4 if q else 12):
+            s = rng.choice([(4, 3), (3,), (2, 4), (3, 2, 2)]); d = len(s); a = rng.randrange(-d, d)
+            m = rng.randint(1, min(s[a], 4) if k == "bool" else s[a])
+            cond = truthy(rng, m, lo=(200 if k == "u8" else -2), hi=(255 if k == "u8" else 7))
+            cnt = sum(1 for x in cond if x != 0)
+            dst = list(s); dst[a] = cnt
+            add("conditions", "compress_ix S:%s %s %s %s I:%d" % (k, L(cond), L(s), L(rand_index(rng, dst)), a), "c04c")
+    # fill values of another type than the source (in range of the source type)
+    for ts in DTYPES:
+        for vt in ("i", "d"):
+            s = rng.choice(small); d = len(s)
+            w = [rng.randint(0, 2) for _ in range(2 * d)]; w[0] = max(w[0], 1)
+            v = rng.choice([-6, 7, 10, -3]) if vt == "d" else rng.choice([7, -100, 0, 100])
+            add("fill_types", "%s %s %s S:%s I:%d" % (rng.choice(["tpad", "tpad", "tpad_e"]), T(rng, ts, s), L(w), vt, v), "c04c")
+    for ts in ("f64", "i8", "f32"):
+        for vt in ("i", "d"):
+            s = rng.choice(small); a = rng.randrange(-len(s), len(s))
+            add("fill_types", "texpand %s I:%d I:%d S:%s I:%d" % (T(rng, ts, s), a, rng.randint(1, 2), vt, rng.choice([-6, 7, -3])), "c04c")
+    # one typed operand through the selecting views: elements are copies in the source type
+    for ts in ("f64", "i8", "f32"):
+        for _ in range(1 if q else 4):
+            s = rng.choice([t for t in small if len(t) >= 2]); d = len(s)
+            add("dtype_select", "tsel S:tile %s %s" % (T(rng, ts, s), L([rng.randint(1, 2) for _ in range(rng.randint(1, 3))])), "c04c")
+            add("dtype_select", "tsel S:repeat %s I:%d %s" % (T(rng, ts, s), rng.randint(1, 3), AX(rng.choice([None] + list(range(-d, d))))), "c04c")
+            add("dtype_select", "tsel S:roll %s I:%d %s" % (T(rng, ts, s), rng.randint(-5, 5), AX(rng.choice([None] + list(range(-d, d))))), "c04c")
+            add("dtype_select", "tsel S:resize %s %s" % (T(rng, ts, s), L([rng.randint(1, 4) for _ in s])), "c04c")
+            a = rng.randrange(-d, d)
+            add("dtype_select", "tsel S:sw %s %s %s" % (T(rng, ts, s), L([rng.randint(1, s[a])]), L([a])), "c04c")
+            add("dtype_select", "tsel S:diagonal %s I:%d I:0 I:1" % (T(rng, ts, s), rng.randint(-1, 1)), "c04c")
+            add("dtype_select", "tsel S:diagflat %s I:%d" % (T(rng, ts, (2,)), rng.randint(-1, 1)), "c04c")
+            add("dtype_select", "tsel S:tril %s I:%d" % (T(rng, ts, s), rng.randint(-1, 1)), "c04c")
+            add("dtype_select", "tsel S:triu %s I:%d" % (T(rng, ts, s), rng.randint(-1, 1)), "c04c")
+    # generators with every dtype
+    for dt in DTYPES:
+        big_ = {"i8": [-128, 127], "i32": [2147483647, -7], "i64": [1099511627777, -9], "f32": [-7, 4194305], "f64": [4398046511105, 5]}[dt]
+        for v in big_:
+            add("dtype_generators", "%s S:%s %s I:%d" % (rng.choice(["tfull", "tfull_e"]), dt, L(rng.choice(small)), v), "c04c")
+        add("dtype_generators", "tzeros S:%s %s" % (dt, L(rng.choice(small))), "c04c")
+        add("dtype_generators", "tones S:%s %s" % (dt, L(rng.choice(small))), "c04c")
+        add("dtype_generators", "ttri S:%s I:%d I:%d I:%d" % (dt, rng.randint(1, 3), rng.randint(1, 4), rng.randint(-2, 2)), "c04c")
+        add("dtype_generators", "teye S:%s I:%d I:%d I:%d" % (dt, rng.randint(1, 3), rng.randint(1, 4), rng.randint(-2, 2)), "c04c")
+        for (a_, b_, p) in [(0, 5, 2), (3, -4, -2), (-2, 2, 1), (2, 2, 1)]:
+            add("dtype_generators", "tarange S:%s I:%d I:%d I:%d I:1" % (dt, a_, b_, p), "c04c")
+        if dt in ("f32", "f64"):
+            for (a_, b_, p, qq) in [(0, 2, 1, 2), (3, 0, -3, 4), (-1, 1, 1, 4)]:
+                add("dtype_generators", "tarange S:%s I:%d I:%d I:%d I:%d" % (dt, a_, b_, p, qq), "c04c")
+            for (a_, b_, n_, e) in [(2, 10, 5, 1), (-2, 9, 4, 0), (3, 9, 1, 1), (3, 9, 1, 0), (7, -9, 3, 1), (1, 1, 2, 1)]:
+                add("dtype_generators", "tlinspace S:%s I:%d I:%d I:%d I:%d" % (dt, a_, b_, n_, e), "c04c")
     return out
 
 
@@ -451,6 +580,18 @@ def _src_dim(t):
 def classify(line, impl, spec, model):
     t = line.split(" ")
     op = t[0]
+    if op in ("tconcat", "tconcat_e", "tstack", "tstack_e", "thstack", "thstack_e", "tvstack", "tdstack", "tcolumn_stack", "twhere", "twhere_e"):
+        ops_ = [x for x in t[1:] if x.startswith("T:")]
+        if op.startswith("twhere"): ops_ = ops_[1:]
+        dts = [x.split(":")[1] for x in ops_]
+        if "f32" in dts and "f64" not in dts:
+            for x in ops_:
+                dt = x.split(":")[1]
+                if dt in ("i32", "i64") and any(not f32_exact(int(v)) for v in x.split(":")[3].split(",") if v):
+                    return "int_float32_common_type"
+    if op == "tarange" and t[1] in ("S:f32", "S:f64") and t[5] == "I:1":
+        a_, b_, p = int(t[2][2:]), int(t[3][2:]), int(t[4][2:])
+        if p < 0 and (b_ - a_) // p + (1 if (b_ - a_) % p else 0) >= 2: return "arange_float_dtype_negative_int_step"
     if op in ("roll_m", "roll_ms"):
         d = _src_dim(t); axes = [a + d if a < 0 else a for a in _ints(t[-1])]
         if len(set(axes)) < len(axes): return "roll_repeated_axis"
@@ -463,12 +604,12 @@ def _num(x):
 
 
 def equal(a, b):
-    """whitespace-insensitive equality; elements that are written as reals are compared at float32 resolution (relative 2e-6):
-    index::linspace_step computes (float)stop - (float)start even for double arguments (linspace.hpp:17)"""
+    """whitespace-insensitive equality.  Results marked "ok~" (linspace: index::linspace_step computes (float)stop - (float)start
+    even for double arguments, linspace.hpp:17) are compared element-wise at float32 resolution (relative 2e-6);
+    everything else, real-valued elements included ("%.17g"), must agree exactly"""
     a = " ".join(a.split()); b = " ".join(b.split())
     if a == b: return True
-    if not (a.startswith("ok ") and b.startswith("ok ")) or "|" in a or "|" in b: return False
-    if "." not in a + b and "e" not in a + b: return False
+    if not (a.startswith("ok~ ") and b.startswith("ok~ ")): return False
     ha, _, ea = a.partition(";"); hb, _, eb = b.partition(";")
     if ha.strip() != hb.strip(): return False
     xa = [x for x in ea.strip().split(",") if x]; xb = [x for x in eb.strip().split(",") if x]
